@@ -12,7 +12,7 @@ import (
 // ruleC01Deleg: the exported wrapper forwards every call unchanged to the implementation.
 func ruleC01Deleg(cx *Ctx) {
 	const rule = "C01.deleg"
-	cx.R.Rule(rule, 25, "every exported method of Cache forwards its parameters, in order, to the like-named method of the implementation and returns its results unchanged")
+	cx.R.Rule(rule, 8, "every exported method of Cache forwards its parameters, in order, to the like-named method of the implementation and returns its results unchanged")
 	named, _ := cx.P.Struct("", "Cache")
 	if named == nil {
 		cx.R.Undecided(rule, "Cache", "anchor", "-", "type Cache does not resolve")
@@ -151,8 +151,8 @@ func closeFlags(f map[string]bool) map[string]bool {
 func localFlags(in ssa.Instruction) map[string]bool {
 	out := map[string]bool{}
 	for _, g := range guardsAt(in.Block()) {
-		if f := fieldOf(g.Cond); f != nil && flagNames[f.Name()] && stripLoad(g.Cond) != g.Cond && g.Truth {
-			out[f.Name()] = true
+		if f := fieldOf(g.Cond); f != nil && flagNames[fname(f)] && stripLoad(g.Cond) != g.Cond && g.Truth {
+			out[fname(f)] = true
 		}
 	}
 	return out
@@ -163,7 +163,7 @@ func typeFlags(fn *ssa.Function) map[string]bool {
 	o := origin(outermost(fn))
 	if o.Signature.Recv() == nil {
 		// constructors of the policies
-		switch o.Name() {
+		switch cname(o) {
 		case "newPolicy", "NewLinked":
 			out["withEviction"] = true
 		case "NewVariable", "link", "unlink":
@@ -263,7 +263,7 @@ func (fc *flagCtx) at(in ssa.Instruction) map[string]bool {
 
 func ruleC01Cap(cx *Ctx) {
 	const rule = "C01.cap"
-	cx.R.Rule(rule, 30, "every invocation of a node method that is unsupported (bare panic) in some generated variant happens in a context - dominating flag test, entry context of the enclosing function, or receiver type that exists only under that configuration - implying the configuration flag under which all variants support it; the flag-to-feature correspondence is read from newCache")
+	cx.R.Rule(rule, 10, "every invocation of a node method that is unsupported (bare panic) in some generated variant happens in a context - dominating flag test, entry context of the enclosing function, or receiver type that exists only under that configuration - implying the configuration flag under which all variants support it; the flag-to-feature correspondence is read from newCache")
 	req := capRequirements(cx, rule)
 	if req == nil {
 		return
@@ -278,10 +278,10 @@ func ruleC01Cap(cx *Ctx) {
 				if f := fieldOf(st.Addr); f != nil {
 					tn := structNameOfAddr(st.Addr)
 					if tn == "Config" {
-						cfg[f.Name()] = newTermBuilder().of(st.Val).String()
+						cfg[fname(f)] = newTermBuilder().of(st.Val).String()
 					}
-					if tn == "cache" && flagNames[f.Name()] {
-						stores[f.Name()] = st.Val
+					if tn == "cache" && flagNames[fname(f)] {
+						stores[fname(f)] = st.Val
 					}
 				}
 			}
@@ -298,8 +298,8 @@ func ruleC01Cap(cx *Ctx) {
 		for _, fn := range cx.P.ModuleFuncs() {
 			allInstrs(fn, func(in ssa.Instruction) {
 				if st, ok := in.(*ssa.Store); ok {
-					if f := fieldOf(st.Addr); f != nil && flagNames[f.Name()] && structNameOfAddr(st.Addr) == "cache" {
-						cx.R.Check(origin(fn) == origin(nc), rule, funcName(fn), "writer of "+f.Name(), cx.P.where(in), "configuration flags are immutable after construction")
+					if f := fieldOf(st.Addr); f != nil && flagNames[fname(f)] && structNameOfAddr(st.Addr) == "cache" {
+						cx.R.Check(origin(fn) == origin(nc), rule, funcName(fn), "writer of "+fname(f), cx.P.where(in), "configuration flags are immutable after construction")
 					}
 				}
 			})
@@ -327,7 +327,7 @@ func ruleC01Cap(cx *Ctx) {
 			have := fc.at(in)
 			// dead branch: the expiration flavour of the deque is never instantiated (all NewLinked calls pass false)
 			for _, g := range guardsAt(in.Block()) {
-				if f := fieldOf(g.Cond); f != nil && f.Name() == "isExp" && g.Truth && linkedNeverExp(cx) {
+				if f := fieldOf(g.Cond); f != nil && fname(f) == "isExp" && g.Truth && linkedNeverExp(cx) {
 					have[need] = true
 				}
 			}
